@@ -257,8 +257,20 @@ fn parse_inner_header(
     let mut header_attachments = Vec::new();
 
     loop {
+        if data.len() < pos + 5 {
+            return Err(DatabaseIntegrityError::IncompleteInnerHeader {
+                missing_field: "End of inner header".into(),
+            }
+            .into());
+        }
         let entry_type = data[pos];
         let entry_length: usize = LittleEndian::read_u32(&data[pos + 1..(pos + 5)]) as usize;
+        if data.len() - (pos + 5) < entry_length {
+            return Err(DatabaseIntegrityError::IncompleteInnerHeader {
+                missing_field: "End of inner header".into(),
+            }
+            .into());
+        }
         let entry_buffer = &data[(pos + 5)..(pos + 5 + entry_length)];
 
         pos += 5 + entry_length;
@@ -267,6 +279,9 @@ fn parse_inner_header(
             INNER_HEADER_END => break,
 
             INNER_HEADER_RANDOM_STREAM_ID => {
+                if entry_buffer.len() < 4 {
+                    return Err(DatabaseIntegrityError::InvalidInnerHeaderEntry { entry_type }.into());
+                }
                 inner_random_stream = Some(InnerCipherConfig::try_from(LittleEndian::read_u32(
                     &entry_buffer,
                 ))?);
@@ -275,6 +290,9 @@ fn parse_inner_header(
             INNER_HEADER_RANDOM_STREAM_KEY => inner_random_stream_key = Some(entry_buffer.to_vec()),
 
             INNER_HEADER_BINARY_ATTACHMENTS => {
+                if entry_buffer.is_empty() {
+                    return Err(DatabaseIntegrityError::InvalidInnerHeaderEntry { entry_type }.into());
+                }
                 let header_attachment = HeaderAttachment::from(entry_buffer);
                 header_attachments.push(header_attachment);
             }
